@@ -512,13 +512,13 @@ def run(tier="quick", root="/repo", evidence_dir=None, quiet=False):
     ])
     repo = get_repo(root)
     classes = rule_r1(rep, repo)
-    rule_r2(rep, repo, classes)
-    rule_r3(rep, repo, classes)
-    rule_r4(rep, repo)
-    rule_r5_r6(rep, repo, classes)
-    rule_r7(rep, repo)
-    rule_r8(rep, repo)
-    rule_r9(rep, repo)
+    rep.attempt(rule_r2, rep, repo, classes)
+    rep.attempt(rule_r3, rep, repo, classes)
+    rep.attempt(rule_r4, rep, repo)
+    rep.attempt(rule_r5_r6, rep, repo, classes)
+    rep.attempt(rule_r7, rep, repo)
+    rep.attempt(rule_r8, rep, repo)
+    rep.attempt(rule_r9, rep, repo)
     rep.extra.update({"concrete_grid_classes": classes,
                       "source_digest": repo.digest(["basegrid", "atomgrid", "molgrid", "cubic", "periodicgrid",
                                                     "ngrid", "onedgrid", "angular"])})
